@@ -237,21 +237,34 @@ def shared_run(ctx):
                     if os.path.exists(os.path.join(cdir, n)):
                         shutil.copy(os.path.join(cdir, n), os.path.join(cdir, "first_" + n))
             else:
-                # the run is deterministic up to goroutine scheduling: a real failure shows again
-                # at the same operation of the same episode
-                k1 = set((f["key"], f["where"]) for f in first[0]) | set((d["op"].split()[0] + "@diff", d["line"]) for d in first[1])
-                k2 = set((f["key"], f["where"]) for f in fails) | set((d["op"].split()[0] + "@diff", d["line"]) for d in diffs)
+                # the run is deterministic up to goroutine scheduling and nsqd's own math/rand (client
+                # sampling), so the second run need not fail at the same operation: a kind of failure
+                # (oracle key / kind of diverging line) is kept iff it shows again
+                k1 = set(f["key"] for f in first[0]) | set(d["op"].split()[0] + "@diff" for d in first[1])
+                k2 = set(f["key"] for f in fails) | set(d["op"].split()[0] + "@diff" for d in diffs)
                 gone = k1 - k2
                 if gone:
-                    res["notes"].append("not reproduced at the same operation on a second run of the same seed (dropped): %s" % sorted(map(str, gone)))
-                res["fails"] = [f for f in first[0] if (f["key"], f["where"]) in k2]
-                res["diffs"] = [d for d in first[1] if (d["op"].split()[0] + "@diff", d["line"]) in k2]
+                    res["notes"].append("not reproduced on a second run of the same seed (dropped): %s" % sorted(gone))
+                res["fails"] = [f for f in first[0] if f["key"] in k2]
+                res["diffs"] = [d for d in first[1] if d["op"].split()[0] + "@diff" in k2]
                 for n in ("e2.ops", "e2.impl", "e2.model", "e2.cmds"):
                     if os.path.exists(os.path.join(cdir, "first_" + n)):
                         shutil.copy(os.path.join(cdir, "first_" + n), os.path.join(cdir, n))
-        # 3. concurrent leg
+        # 3. concurrent leg (thorough: under the race detector)
         csecs = ctx.budget(8, 90)
-        rc, out = harness_run(ctx, keep, cdir, "TestVerifE2Concurrent", {"VERIF_E2_SECONDS": csecs}, csecs + 120)
+        cbin = keep
+        if ctx.thorough():
+            rbin = ctx.go_test_binary("nsqd", HARNESS, "e2hr", race=True, timeout=1800)
+            if rbin:
+                cbin = os.path.join(cdir, "e2hr.test")
+                shutil.copy(rbin, cbin)
+                res["race_detector"] = True
+            else:
+                res["notes"].append("race-detector build of the harness failed; concurrent leg ran without it")
+        rc, out = harness_run(ctx, cbin, cdir, "TestVerifE2Concurrent", {"VERIF_E2_SECONDS": csecs}, csecs + 300)
+        if "WARNING: DATA RACE" in out:
+            i = out.index("WARNING: DATA RACE")
+            out += "\nORACLE-FAIL race conc=1 seed=%s %s\n" % (ctx.seed, " | ".join(out[i:i + 1500].splitlines()[:14]))
         with open(os.path.join(cdir, "conc.log"), "w") as f:
             f.write(out)
         cf, chist, cdone = parse_log(out)
@@ -296,8 +309,40 @@ def cmds_of_episode(res, ep_index):
     return ""
 
 
+def replay_only(ctx, prop):
+    """./check Cxx --replay <script>: execute one command script (corpus/*.ops, replay/*.replay, or the
+    e2.cmds of an episode) on the real code and print implementation and model side by side."""
+    ctx.build_driver("e2")
+    binp = ctx.go_test_binary("nsqd", HARNESS, "e2r")
+    if not binp:
+        ctx.broken_ties.append("harness e2/*.go does not compile against the current tree")
+        return
+    script = os.path.abspath(ctx.replay_in)
+    rc, out = harness_run(ctx, binp, ctx.work, "TestVerifE2Replay",
+                          {"VERIF_E2_SCRIPT": script, "VERIF_E2_NAME": "replay"}, 300)
+    fails, hist, done = parse_log(out)
+    if done is None:
+        print(out[-3000:])
+        ctx.broken_ties.append("replay harness did not finish (rc=%s)" % rc)
+        return
+    ops, impl, model, diffs, _ = run_driver(ctx, ctx.work, "replay")
+    for i, o in enumerate(ops):
+        m = model[i] if i < len(model) else "<missing>"
+        flag = "" if m == impl[i] else "   <<< model: " + m
+        print("%-58s -> %s%s" % (o[:58], impl[i][:160], flag))
+    for f in fails:
+        print("ORACLE-FAIL %s %s" % (f["key"], f["what"]))
+        if prop in ORACLE_OWNER.get(f["key"], PROPS_ALL):
+            ctx.violation(norm_key(f, f["key"]), f["what"], open(script).read())
+    ctx.evaluations = len(ops)
+    ctx.corr["replay"] = {"script": script, "lines": len(ops), "oracle_failures": [f["key"] for f in fails], "diffs": len(diffs)}
+
+
 def run_property(ctx, prop, tie, props, spec="e2_chan"):
     """The common pipeline of the four checks. Returns the shared result."""
+    if ctx.replay_in:
+        replay_only(ctx, prop)
+        return {}, []
     ctx.trusted += [
         "Go memory model / runtime: critical sections are atomic, sync/atomic and channel operations are "
         "linearizable, select picks any ready case (DESIGN 4.4)",
